@@ -8,7 +8,7 @@ import sys
 _THOROUGH = "thorough" in sys.argv or os.environ.get("VERIF_TIER") == "thorough"
 _RACE = [Harness(name="concurrency-race", module="internal/e2e", pkg="internal/e2e",
                  files={"zz_verif_c15_test.go": "c15/hop_test.go", "zz_verif_c15_fake_test.go": "c15/fake_test.go", "zz_verif_common_test.go": "c15/common_test.go"}, common=False,
-                 test="TestVerifC15Conc", driver="drv_c15", n={"quick": 6, "thorough": 12}, timeout_s=1500, race=True)] if _THOROUGH else []
+                 test="TestVerifC15Conc", driver="drv_c15", n={"quick": 4, "thorough": 5}, timeout_s=1500, race=True)] if _THOROUGH else []
 
 SPEC = Spec(
     pid="C15",
@@ -27,7 +27,7 @@ SPEC = Spec(
          "(permanent/throttle delay/retryable), consumer invocations, byte equality of the payload at the sink. 20% raw malformed "
          "requests (wrong method, content types, undecodable proto/JSON, unknown path, bad Content-Encoding, combinations, gRPC "
          "garbage frames). Corpus first: Retry-After witnesses, errorHandler witnesses, all 17 codes x 2 transports x +-RetryInfo. "
-         "CONCURRENCY stream (monitor; 3 corpus cases + 1 in 500): against one receiver, at once: two real OTLP/HTTP JSON exporters with very big bodies (12-20k items, slow to decode, so the handler is preempted while decoding), 2-5 small real exporters (gRPC, HTTP proto/JSON, all compressions, all 4 signals) in series, and a swarm of 6 plain HTTP clients re-posting a big well-formed protobuf request (2) and an 8-12 MiB non-protobuf body that must get 400 (4) for as long as the exporters are busy; GOMAXPROCS 1/2/4/default (schedule exploration); oracle: every well-formed request acknowledged, every junk one 400, multiset of payloads at the consumer == multiset sent; thorough repeats such cases under -race. non-trivial = non-nil outcome, compressed transport with items, or raw request; distinct = sha1 of op lines.",
+         "CONCURRENCY stream (monitor; 3 corpus cases + 1 in 500): against one receiver, at once: two real OTLP/HTTP JSON exporters with very big bodies (12-20k items, slow to decode, so the handler is preempted while decoding), 2-5 small real exporters (gRPC, HTTP proto/JSON, all compressions, all 4 signals) in series, and a swarm of 6 plain HTTP clients re-posting a big well-formed protobuf request (2) and an 8-12 MiB non-protobuf body that must get 400 (4) for as long as the exporters are busy; GOMAXPROCS 1/2/4/default (schedule exploration); oracle: every well-formed request acknowledged, every junk one 400, multiset of payloads at the consumer == multiset sent; thorough repeats such cases under -race. SENDER SIDE against scripted FAKE servers (1 case in 5 + 21 corpus cases): the real otlphttp exporter (proto/JSON) against an HTTP server answering any status (2xx..999) x Retry-After {absent, delay-seconds incl. negative/zero/+n/00n/huge/overflowing, HTTP-date in RFC1123 and GMT form past and future, unusable strings, empty, two values} x body {empty, response, partial success, other content type, undecodable, >64KiB, Status, garbage}; the real gRPC exporter against a gRPC server answering every code (also >16) x RetryInfo {absent, 0, +-1ns .. 1 year} x partial success; panics recovered and reported. RECEIVER SIDE raw stream now also: both content types x every compression x {valid, truncated stream, wrong method/path/content type, undecodable body, oversized (plain and after decompression) against a receiver with max_request_body_size 4096}. non-trivial = non-nil outcome, compressed transport with items, or raw request; distinct = sha1 of op lines.",
     trusted_base=[
         "Lean 4.33.0 kernel; axioms per theorem listed under axioms_per_theorem (subset of propext, Classical.choice, Quot.sound)",
         "translator translators/cmd/otlptables (go/ast): switch tables of GetHTTPStatusCodeFromStatus, NewStatusFromMsgAndHTTPCode, "
@@ -44,6 +44,10 @@ SPEC = Spec(
         "checked on every hop",
     ],
     assumptions=[
+        "sender-side theorems about Retry-After delay-seconds are exact for |s| <= 9223372036 (time.Duration range); beyond it the "
+        "code wraps (modelled with wrap64, C15_retry_after_overflow_wraps) - recorded as an observation, not flagged",
+        "a 2xx response whose body is declared protobuf/JSON but does not decode makes the exporter return a plain (retryable) error - "
+        "modelled as is (SuccessBody.undecodable), outside the property's quantifier (the real receiver never sends such a body)",
         "an error never carries gRPC code 0 (status.Err() of OK is nil); RetryInfo delays are non-negative",
         "queue and retry of the exporters are disabled so the push error is what ConsumeX returns",
     ],
